@@ -24,6 +24,10 @@ import (
 //	unknown-rule: the first rule name of one annotation replaced by an unknown name; expected = first byte of the name.
 //	example-breaks-rule: the example of one scalar replaced by a value that violates the node's own rule;
 //	    expected = first byte of the example.
+//	example-breaks-referenced-type: a literal annotated with `{type: "@s"}` or `{or: ["@s1", "@s2"]}` whose example
+//	    breaks a rule (min / max / enum / length / regex / format) of the referenced scalar type, which lives in
+//	    another file with another line layout; expected = first byte of the example IN THE REFERRING text, and
+//	    the message names the referring file, its line and its source text.
 //
 // Each class is planted in the root schema (file "root") or in an added type (file = type name). For a type the
 // position is relative to the type's own text, and Error() must render against the type's text (line number by
@@ -89,8 +93,17 @@ func runSchemaPos(rep *vh.Report) {
 	r := vh.NewRand(17004)
 	n := vh.Pick(6000, 120000)
 	for i := 0; i < n; i++ {
-		g := &vgen{r: r, types: map[string]*sNode{}, order: []string{"root", "@t1", "@t2"}}
-		for lvl := len(g.order) - 1; lvl >= 0; lvl-- {
+		g := &vgen{r: r, types: map[string]*sNode{}, order: []string{"root", "@t1", "@t2", "@s1", "@s2"}}
+		// @s1 / @s2: scalar types (integer, string) that own at least one rule an example can break
+		for k, kind := range []string{"int", "str"} {
+			t := g.scalarSchema(kind)
+			for g.violating(t) == "" {
+				t = g.scalarSchema(kind)
+			}
+			t.nullable = false
+			g.types[g.order[3+k]] = t
+		}
+		for lvl := 2; lvl >= 0; lvl-- {
 			t := g.schema(1+r.Intn(3), lvl)
 			for try := 0; try < 3 && t.kind != "obj" && t.kind != "arr"; try++ {
 				t = g.schema(2+r.Intn(2), lvl)
@@ -114,17 +127,55 @@ func runSchemaPos(rep *vh.Report) {
 			}
 			g.types["root"] = obj
 		}
+		// literal examples annotated with a reference to @s1 / @s2 (type rule or `or` list) inside the containers
+		trefs := map[string][]*sNode{}
+		for _, nm := range g.order[:3] {
+			t := g.types[nm]
+			if t.kind != "obj" || (nm != "root" && r.Intn(2) == 0) {
+				continue
+			}
+			for k := 1 + r.Intn(2); k > 0; k-- {
+				tr := newS("tref")
+				switch r.Intn(4) {
+				case 0:
+					tr.names = []string{"@s1", "@s2"}
+				case 1:
+					tr.names = []string{"@s2", "@s1"}
+				case 2:
+					tr.names = []string{"@s1"}
+				default:
+					tr.names = []string{"@s2"}
+				}
+				tr.nullable = r.Intn(5) == 0
+				at := r.Intn(len(t.props) + 1)
+				pr := &sProp{key: fmt.Sprintf("r%d", k), optional: r.Intn(4) == 0, val: tr}
+				t.props = append(t.props[:at:at], append([]*sProp{pr}, t.props[at:]...)...)
+				trefs[nm] = append(trefs[nm], tr)
+			}
+		}
 		victim := g.order[r.Intn(len(g.order))]
 		// first print: collect marks of the victim
 		sp := newSPrinter(g)
 		sp.print(g.types[victim], 0, "", "", false)
-		class := []string{"stray-before-value", "stray-after-value", "stray-before-key", "stray-after-root", "truncated", "truncated", "unknown-rule", "example-breaks-rule"}[r.Intn(8)]
+		class := []string{"stray-before-value", "stray-after-value", "stray-before-key", "stray-after-root", "truncated", "truncated", "unknown-rule", "example-breaks-rule", "example-breaks-referenced-type", "example-breaks-referenced-type"}[r.Intn(10)]
+		if class == "example-breaks-referenced-type" {
+			var cands []string
+			for _, nm := range g.order[:3] {
+				if len(trefs[nm]) > 0 {
+					cands = append(cands, nm)
+				}
+			}
+			victim = cands[r.Intn(len(cands))] // the root always has one
+			sp = newSPrinter(g)
+			sp.print(g.types[victim], 0, "", "", false)
+		}
 		texts := map[string]string{}
 		for _, nm := range g.order {
 			if nm != victim {
 				p := newSPrinter(g)
 				p.print(g.types[nm], 0, "", "", false)
-				texts[nm] = p.text()
+				// the other files get a different line layout (leading blank lines / indentation)
+				texts[nm] = []string{"", "", "\n", "\n\n   ", "  ", "\r\n \t"}[r.Intn(6)] + p.text()
 			}
 		}
 		txt := sp.text()
@@ -191,6 +242,17 @@ func runSchemaPos(rep *vh.Report) {
 			p2.print(g.types[victim], 0, "", "", false)
 			txt = p2.text()
 			want = p2.valueStart[p2.badExample]
+		case "example-breaks-referenced-type":
+			p2 := newSPrinter(g)
+			p2.badExample = trefs[victim][r.Intn(len(trefs[victim]))]
+			p2.print(g.types[victim], 0, "", "", false)
+			txt = p2.text()
+			want = p2.valueStart[p2.badExample]
+			if len(p2.badExample.names) == 1 {
+				rep.Stat("schema_tref_by_type_rule")
+			} else {
+				rep.Stat("schema_tref_by_or_list")
+			}
 		}
 		texts[victim] = txt
 		var types [][2]string
@@ -219,12 +281,18 @@ func runSchemaPos(rep *vh.Report) {
 			rep.AddDiff(vh.Diff{Component: "C17-schema-pos", Input: in.String(), Impl: got.where + ": " + got.desc + " | " + got.msg, Model: model})
 			continue
 		}
-		// rendering: against the text the position belongs to
+		// rendering: file, line, shown source text and caret of the text the position belongs to
 		c := []byte(txt)
 		if want < len(c) {
-			num, _, _ := refLine(c, want, classify(c))
-			if !strings.Contains(got.msg, fmt.Sprintf("\n\tin line %d on file %s\n", num, victim)) {
-				rep.AddDiff(vh.Diff{Component: "C17-schema-pos", Input: in.String(), Impl: fmt.Sprintf("%q", got.msg), Model: fmt.Sprintf("message shows line %d of file %s", num, victim)})
+			num, src, caret, ok := refRender(c, want, classify(c))
+			tail := fmt.Sprintf("\n\tin line %d on file %s\n\t> ", num, victim)
+			good := strings.Contains(got.msg, tail)
+			if ok {
+				tail += src + "\n\t--" + caret
+				good = strings.HasSuffix(got.msg, tail)
+			}
+			if !good {
+				rep.AddDiff(vh.Diff{Component: "C17-schema-pos", Input: in.String(), Impl: fmt.Sprintf("%q", got.msg), Model: fmt.Sprintf("message ends with %q (file, line, source text and caret of %s at offset %d)", tail, victim, want)})
 			}
 		}
 	}
